@@ -47,6 +47,9 @@ type c14Case struct {
 	// both as a loose file and in packed-refs: "" nothing, "edit" the victim gets one more commit, "fetch" its
 	// remotes are fetched again (which rewrites the remote-tracking refs as loose files)
 	AfterPack string `json:"after_pack,omitempty"`
+	// LateRemote (entity API and cache): the repository handle is already open and has listed its remotes once when
+	// the user adds one more remote with stock git in another terminal and the victim is pushed there
+	LateRemote bool `json:"late_remote,omitempty"`
 }
 
 func genC14(t *rapid.T) c14Case {
@@ -77,6 +80,7 @@ func genC14(t *rapid.T) c14Case {
 	if c.Packed {
 		c.AfterPack = rapid.SampledFrom([]string{"", "edit", "fetch"}).Draw(t, "afterPack")
 	}
+	c.LateRemote = c.Mode != "cli" && rapid.IntRange(0, 3).Draw(t, "lateRemote") == 0
 	return c
 }
 
@@ -271,6 +275,34 @@ func runC14(tb report.TB, rep *report.Reporter, c c14Case) {
 		}
 	}
 	var liveLookups func(rc *cache.RepoCache)
+	// lateRemote: the handle that will do the removal is open and has listed its remotes; the user adds one more
+	// remote with stock git in another terminal, and the victim is pushed there through that handle
+	lateDone := false
+	lateRemote := func(h *repository.GoGitRepo) {
+		if !c.LateRemote || lateDone {
+			return
+		}
+		lateDone = true
+		_, _ = h.GetRemotes()
+		lp := filepath.Join(dir, "late.git")
+		if _, err := repository.InitBareGoGitRepo(lp, "git-bug"); err != nil {
+			tb.Fatalf("harness: %v", err)
+		}
+		if res := RunGit(main, "remote", "add", "late", lp); res.Code != 0 {
+			tb.Fatalf("harness: git remote add: %s", res.Out)
+		}
+		if _, err := identity.Push(h, "late"); err != nil {
+			tb.Fatalf("harness: push to the late remote: %v", err)
+		}
+		if _, err := bug.Push(h, "late"); err != nil {
+			tb.Fatalf("harness: push to the late remote: %v", err)
+		}
+		rep.Class("remote-added-by-stock-git-while-the-handle-was-open", 1)
+		before = allRefs()
+		if ref := "refs/remotes/late/" + strings.TrimPrefix(victimRefPrefix, "refs/") + victimId; before[ref] != "" {
+			expectedGone[ref] = true
+		}
+	}
 	remove := func() (string, error) {
 		switch c.Mode {
 		case "dag":
@@ -279,6 +311,7 @@ func runC14(tb report.TB, rep *report.Reporter, c c14Case) {
 				return "", err
 			}
 			defer r2.Close()
+			lateRemote(r2)
 			if c.Entity == "bug" {
 				return "", bug.Remove(r2, entity.Id(victimId))
 			}
@@ -293,6 +326,7 @@ func runC14(tb report.TB, rep *report.Reporter, c c14Case) {
 				return "", err
 			}
 			defer rc.Close()
+			lateRemote(r2)
 			// the shortest prefix that is unique
 			var err2 error
 			if c.Entity == "bug" {
